@@ -96,6 +96,14 @@ class Canon:
                 nm = n.get("pn", n.get("n", "")).split("::")[-1]
                 if nm == "getline" and len(args) >= 2:
                     tgts.append((args[1], "call"))
+                # a standard algorithm working on v.begin()/v.end() (rotate, sort, reverse, replace, copy into ...) changes v
+                if n.get("pn", "").startswith("std::") and n.get("r") is None and nm not in ("begin", "end", "move", "forward", "min", "max", "distance", "find", "find_if", "count", "accumulate", "inner_product", "adjacent_find", "equal", "get"):
+                    for a_ in args:
+                        ar = unwrap(f.resolve(a_))
+                        while isinstance(ar, dict) and ar.get("k") == "ctor" and len(ar.get("a", [])) == 1:
+                            ar = unwrap(ar["a"][0])
+                        if isinstance(ar, dict) and ar.get("k") == "call" and ar.get("pn", ar.get("n", "")).split("::")[-1] in ("begin", "end", "rbegin", "rend") and ar.get("r") is not None:
+                            tgts.append((ar["r"], "call"))
                 callee = f.fb.fns.get(n.get("u")) if getattr(f, "fb", None) is not None else None
                 if callee is not None:
                     for a_, p_ in zip(args, callee.d.get("params", [])):
